@@ -40,7 +40,9 @@ RULE = ("paired runs of the real drivers on small planted low-rank problems (ord
         "zero entries and all-zero slices for CP-APR/GCP-Poisson; few outer iterations) generated from "
         "random.Random(VERIF_SEED); compared pairwise at 1e-8 relative on full() of the returned model and on the "
         "reported numbers (fit / objective / iteration counts; CP-ALS whole-run scaling at 1e-6): dense vs sparse "
-        "(cp_als incl. random start, cp_apr mu/pdnr/pqnr, tucker_als; hosvd and gcp_opt+LBFGSB refuse sparse data: "
+        "(cp_als incl. random start, cp_apr mu/pdnr/pqnr -- two of three cases with option values other than the defaults: inner "
+        "limits 2..20, precompinds / inexact on/off, epsActive 1e-8..10, mu0 1e-5..10, lbfgsMem 1..5, kappa 0.01..0.5, 8 outer "
+        "iterations, stoptol 1e-7 --, tucker_als; hosvd and gcp_opt+LBFGSB refuse sparse data: "
         "dense only, the refusal itself is checked), stored order of the sparse entries shuffled; printing intervals "
         "{0,1,2,3,7} (hosvd verbosity {0,1,2,3,7,10}; cp_apr also printinneritn), sampled on generic positive guesses and "
         "ENUMERATED over driver (cp_als, cp_apr mu/pdnr/pqnr on dense and sparse data, tucker_als, hosvd, gcp_opt) x "
@@ -79,7 +81,9 @@ RULE = ("paired runs of the real drivers on small planted low-rank problems (ord
         "{2,3,1/2,3/4,1000}, ranks that differ per mode, wrong matrix sizes and modes out of range, exactly against c18_scale_ttm. "
         "A mismatch above tolerance is a violation unless the same "
         "driver amplifies a 1e-13 / 1e-12 relative perturbation of the data (same representation) to within a factor 100 of "
-        "it (tag illcond). non-trivial = both runs returned a model, the problem has more than one cell per mode and "
+        "it (tag illcond); a dense / sparse pair of cp_apr runs that agrees in every number but not in the inner iteration counts is "
+        "not judged either when such a perturbation changes the counts too (some row stopped on a KKT value within rounding of "
+        "stoptol). non-trivial = both runs returned a model, the problem has more than one cell per mode and "
         "the two presentations really differ; distinct = distinct case hash")
 ASSUMPTIONS = [
     "IEEE rounding is not modelled: 'the same up to rounding' is measured as relative 1e-8 on small well-conditioned "
@@ -229,7 +233,7 @@ def run_alg(alg, data, case, init=None, printitn=0, dimorder=None, ranks=None, s
                 i0 = init if isinstance(init, str) else ttb.ktensor([a.copy() for a in init])
                 M, M0, o = ttb.cp_apr(data, R, algorithm=alg.split("_")[2], init=i0, printitn=printitn,
                                       printinneritn=inner, maxiters=case.get("maxiters", 3),
-                                      stoptol=case.get("stoptol", 1e-4))
+                                      stoptol=case.get("stoptol", 1e-4), **case.get("apr", {}))
                 kkt = np.ravel(o["kktViolations"])
                 res = {"full": M.full().data, "nums": {"obj": o["obj"], "kkt": float(kkt[-1])},
                        "ints": {"outer": len(kkt)}, "inner": np.ravel(o["nInnerIters"]).tolist(),
@@ -332,6 +336,25 @@ def sensitivity(alg, X, rep, case, **kw):
     return worst
 
 
+def inner_sensitivity(alg, X, rep, case, **kw):
+    """Control for a pair of cp_apr runs that agree in every number but not in the inner iteration counts: does a
+    rounding-sized perturbation of the data (same representation) change the counts too?  Then some row / mode stopped
+    on a KKT value within rounding of stoptol and the count is not a presentation-dependent result (-> 1.0, i.e.
+    ill-conditioned); otherwise the usual amplification."""
+    base = run_alg(alg, as_data(X, rep), case, **kw)
+    worst = 0.0
+    for t in range(16):
+        rs = _rs(case["dseed"] + 991 + t)
+        Xp = X * (1.0 + (1e-13 if t % 2 == 0 else 1e-12) * rs.standard_normal(X.shape))
+        r = run_alg(alg, as_data(Xp, rep), case, **kw)
+        if r.get("reject") or base.get("reject"):
+            return float("inf")
+        if r.get("inner") != base.get("inner"):
+            return 1.0
+        worst = max(worst, compare(base, r)[0])
+    return worst
+
+
 def factor_sensitivity(alg, X, rep, case, **kw):
     """the same control for the factor matrices / the core of a Tucker run"""
     base = run_alg(alg, as_data(X, rep), case, **kw)
@@ -403,6 +426,26 @@ def base_case(rng, tier, alg, n=None):
     return c
 
 
+def apr_options(rng, alg):
+    """Option values of cp_apr other than the defaults (C18 is quantified over all admissible option values): inner
+    limits, how the sparse index sets are obtained, inexact on/off, active-set tolerance, initial damping, L-BFGS memory,
+    MU's kappa.  The first draw of every three keeps the defaults."""
+    if rng.random() < 1 / 3:
+        return {}
+    o = {"maxinneriters": rng.choice([10, 5, 20, 2])}
+    if alg == "cp_apr_mu":
+        o["kappa"] = rng.choice([0.01, 0.1, 0.5])
+    else:
+        o["precompinds"] = rng.random() < 0.5
+        o["epsActive"] = rng.choice([1e-8, 1e-3, 1e-2, 1.0, 10.0])
+        if alg == "cp_apr_pdnr":
+            o["inexact"] = rng.random() < 0.5
+            o["mu0"] = rng.choice([1e-5, 1e-2, 1.0, 10.0])
+        else:
+            o["lbfgsMem"] = rng.randint(1, 5)
+    return o
+
+
 ALGS_CP = ["cp_als", "cp_apr_mu", "cp_apr_pdnr", "cp_apr_pqnr"]
 ALGS_ALL = ALGS_CP + ["tucker_als", "hosvd", "gcp"]
 
@@ -471,6 +514,10 @@ class Repr(Family):
                     if k % 3 == 1:
                         c["zero_slice"] = [rng.randrange(len(c["shape"])), 0]
                     c["rate"] = rng.choice([1.0, 0.15])  # low rate: many zero entries
+                    c["apr"] = apr_options(rng, alg)
+                    if c["apr"]:
+                        c["maxiters"] = rng.choice([c["maxiters"], c["maxiters"], 8])
+                        c["stoptol"] = rng.choice([1e-4, 1e-4, 1e-7])
                 else:
                     c["sparsify"] = k % 2 == 1
                 if alg == "cp_als" and k % 3 == 2:
@@ -491,6 +538,8 @@ class Repr(Family):
             alg = c["alg"]
             X, init = make_problem(c)
             tags = [alg, f"N{len(c['shape'])}", f"p{c['printitn']}"]
+            if c.get("apr"):
+                tags += ["options"] + [f"{k}={v}" for k, v in sorted(c["apr"].items()) if k in ("precompinds", "inexact")]
             if c.get("zero_slice"):
                 tags.append("zeroslice")
             if c.get("sparsify") or (c.get("kind") == "counts" and (X == 0).any()):
@@ -517,10 +566,12 @@ class Repr(Family):
                                        "the other returns a model", impl, None, None, tags))
                 continue
             worst, what = compare(a, b)
+            control = sensitivity
             if worst <= TOL and alg.startswith("cp_apr") and a["inner"] != b["inner"]:
                 worst, what = float("inf"), f"inner iteration counts {a['inner']} vs {b['inner']}"
+                control = inner_sensitivity
             out.append(judge(worst, what, TOL, tags, f"{alg} dense vs sparse",
-                             lambda: sensitivity(alg, X, "dense", c, **kw), impl))
+                             lambda: control(alg, X, "dense", c, **kw), impl))
         return out
 
     def shrink(self, case):
@@ -563,6 +614,8 @@ class Print(Family):
                     c["maxiters"] = rng.choice([4, 9])
                     if alg in ("cp_als", "tucker_als"):
                         c["stoptol"] = rng.choice([0, 1e-4])
+                if alg.startswith("cp_apr"):
+                    c["apr"] = apr_options(rng, alg)
                 out.append(c)
         # ENUMERATED: every driver x every guess pattern (x every printing interval, in evaluate) on 3-way
         # problems, rank >= 2, at least 3 outer iterations; CP drivers alternately on dense and sparse data
